@@ -310,3 +310,53 @@ def true_loop(c, uid):
           "must_converge": meta["must_converge"] and meta2["must_converge"],
           "never_converges": meta["never_converges"] or meta2["never_converges"]}
   return spec, meta
+
+
+def struct_by_slices(c, uid):
+  """C08 shape: a struct wire whose Bits fields are driven ONLY slice by slice through connections (from
+  inputs / slices of inputs), while the whole struct, whole fields and other slices sit in further nets"""
+  nf = c.randint(1, 3)
+  fields = []
+  for i in range(nf):
+    fields.append(["g%d" % i if c.random() < 0.5 else "a%d" % (nf - i), c.choice([4, 8, 8, 12])])
+  nested = c.random() < 0.3
+  structs = {"R": fields}
+  if nested:
+    structs = {"Q": fields, "R": [["h", "Q"], ["t", c.choice([2, 4])]]}
+  signals = [{"name": "w", "kind": "wire", "type": "R", "dims": []},
+             {"name": "o", "kind": "out", "type": "R", "dims": []}]
+  items = []
+  base = [["a", "w"]] + ([["a", "h"]] if nested else [])
+  nin = 0
+  for fname, fw in fields:
+    cuts = sorted(c.sample(range(1, fw), c.randint(1, min(3, fw - 1))))
+    bounds = [0] + cuts + [fw]
+    for lo, hi in zip(bounds, bounds[1:]):
+      signals.append({"name": "i%d" % nin, "kind": "in", "type": hi - lo, "dims": []})
+      items.append({"k": "connect", "a": base + [["a", fname], ["s", lo, hi]], "b": A("i%d" % nin),
+                    "flip": c.random() < 0.5, "op": "connect"})
+      nin += 1
+  if nested:
+    signals.append({"name": "i%d" % nin, "kind": "in", "type": structs["R"][1][1], "dims": []})
+    # the plain field may be driven whole, or (to keep every driven part a slice) bit by bit
+    tw = structs["R"][1][1]
+    if c.random() < 0.5:
+      items.append({"k": "connect", "a": A("w", ["a", "t"], ["s", 0, tw]), "b": A("i%d" % nin), "flip": False, "op": "connect"})
+    else:
+      items.append({"k": "connect", "a": A("w", ["a", "t"]), "b": A("i%d" % nin), "flip": False, "op": "connect"})
+    nin += 1
+  # consumers: the whole struct, a whole field, an overlapping slice of a field
+  items.append({"k": "connect", "a": A("o"), "b": A("w"), "flip": c.random() < 0.5, "op": "connect"})
+  fname, fw = c.choice(fields)
+  if c.random() < 0.6:
+    signals.append({"name": "of", "kind": "out", "type": fw, "dims": []})
+    items.append({"k": "connect", "a": A("of"), "b": base + [["a", fname]], "flip": c.random() < 0.5, "op": "connect"})
+  if c.random() < 0.6 and fw >= 4:
+    lo = c.randint(0, fw - 3)
+    hi = c.randint(lo + 2, fw)
+    signals.append({"name": "os", "kind": "out", "type": hi - lo, "dims": []})
+    items.append({"k": "connect", "a": A("os"), "b": base + [["a", fname], ["s", lo, hi]], "flip": c.random() < 0.5,
+                  "op": "connect"})
+  c.shuffle(items)
+  return {"uid": uid, "structs": structs, "top": "Top", "profile": "struct_by_slices",
+          "comps": {"Top": {"signals": signals, "subs": [], "frees": [], "items": items}}}
